@@ -86,10 +86,18 @@ def sepFn (sep : Sep) (x : V) : Bool :=
   | .none => x == V.none
   | .scalar v => x == v
   | .set vs => vs.contains x
+  | .fn f => (match f x with | .ok y => y.truthy | .error _ => false)
+
+/-- the first exception a callable separator raises on the items -/
+def sepFnErr (f : Fn) : List V → Option Err
+  | [] => none
+  | x :: xs => match f x with | .error e => some e | .ok _ => sepFnErr f xs
 
 def splitE (sep : Sep) (m : Option Nat) (xs : List V) : Except Err (List V) :=
   if (match sep with | .set _ => !(xs.all V.hashable) | _ => false) then .error "TypeError"
-  else .ok ((splitL (sepFn sep) (match sep with | .none => true | _ => false) true m xs).map V.list)
+  else match (match sep with | .fn f => sepFnErr f xs | _ => none) with
+    | some e => .error e
+    | none => .ok ((splitL (sepFn sep) (match sep with | .none => true | _ => false) true m xs).map V.list)
 
 /-- an item is kept iff its key is not the key of an earlier item -/
 def uniqueAux (before : List V) : List (V × V) → List V
@@ -317,6 +325,89 @@ def checkFirst (kinds : List Kind) (src : Src) (key : Fn) (o : FirstObs) (pulls 
       pulls ≤ needEndFrom kinds src n pn)
   || (pulls ≤ pn && (match o with | .raised e => (primeErrs src n [] kinds).contains e | _ => false))
 
+def SrcAfter.beq (a b : SrcAfter) : Bool := a.rest == b.rest && a.ended == b.ended && a.closed == b.closed
+instance : BEq SrcAfter := ⟨SrcAfter.beq⟩
+
+/-- **the property on the caller's source after a run** (observed on a source that is its own
+    iterator: a generator, an object with `__next__` and possibly `close()`).  When the run
+    pulled `pulls` items, `next()` on the source goes on with item number `pulls`: the source
+    is left exactly where the itertools composition over the same iterator leaves it — no
+    item lost, none pushed back — and glom did not call `close()` on it.  `r`: number of
+    items the harness asks for. -/
+def checkSource (src : Src) (pulls r : Nat) (o : SrcAfter) : Bool :=
+  !o.closed && o.rest == (src.after pulls r).rest && o.ended == (src.after pulls r).ended
+
+/-! #### several pipelines over one source object -/
+
+inductive Mode where
+  | take (k : Nat)
+  | all
+  | first (key : Fn)
+
+structure Step where
+  pipe : Nat
+  mode : Mode
+
+inductive StepObs where
+  | run (o : TakeObs)                      -- take / all
+  | first (o : FirstObs) (pulls : Nat)
+
+def StepObs.pulls : StepObs → Nat
+  | .run o => o.pulls
+  | .first _ p => p
+
+def StepObs.raised : StepObs → Bool
+  | .run o => (match o.fin with | .raised _ => true | _ => false)
+  | .first o _ => (match o with | .raised _ => true | _ => false)
+
+def StepObs.oof : StepObs → Bool
+  | .run o => o.fin == .oof
+  | .first o _ => (match o with | .oof => true | _ => false)
+
+def setAt {α : Type} (l : List α) (i : Nat) (x : α) : List α := l.set i x
+
+/-- what the checker remembers about the suspended iterator of a pipe: the source items it
+    pulled so far, the number of items asked of it, the items it yielded -/
+structure Resumed where
+  started : Bool := false
+  pulled : List V := []
+  asked : Nat := 0
+  items : List V := []
+
+/-- **the property, step by step, on the implementation's observations.**  A step that starts
+    an iterator when the source is at position `pos` must behave like the composition over
+    the remaining items `xs.drop pos` (`checkTake` / `checkAll` / `checkFirst` on that source,
+    pulls counted from `pos`).  A step that resumes a suspended iterator must, together with
+    the earlier steps of that iterator, behave like ONE `take` of the composition over the
+    items this iterator pulled followed by the items remaining now — a pipeline sees the
+    items it pulls itself, whoever else reads the same object in between. -/
+def checkSteps (xs : List V) (tail : Option Err) (pipes : List (List Kind)) :
+    List Step → List StepObs → Nat → List Resumed → Bool
+  | [], [], _, _ => true
+  | [], _ :: _, _, _ => false
+  | _ :: _, [], _, _ => false            -- (a sequence cut short by an exception is handled below)
+  | st :: rest, o :: os, pos, mem =>
+    let kinds := pipes.getD st.pipe []
+    let p' := o.pulls
+    if p' < pos then false else
+    let delta := p' - pos
+    let here := (match st.mode, o with
+      | .take k, .run t =>
+        let m := mem.getD st.pipe {}
+        if m.started && k == 0 then t.items.isEmpty && t.fin == .gotK && delta == 0
+        else checkTake kinds (.fin (m.pulled ++ xs.drop pos) tail) (m.asked + k)
+          ⟨m.items ++ t.items, t.fin, m.pulled.length + delta⟩
+      | .all, .run t => checkAll kinds (.fin (xs.drop pos) tail) ⟨t.items, t.fin, delta⟩
+      | .first key, .first f _ => checkFirst kinds (.fin (xs.drop pos) tail) key f delta
+      | _, _ => false)
+    let mem' := (match st.mode, o with
+      | .take k, .run t =>
+        let m := mem.getD st.pipe {}
+        setAt mem st.pipe { started := true, pulled := m.pulled ++ (xs.drop pos).take delta,
+                            asked := m.asked + k, items := m.items ++ t.items }
+      | _, _ => mem)
+    here && (if o.raised then os.isEmpty else checkSteps xs tail pipes rest os p' mem')
+
 /-- builder purity, on observations of the implementation alone: the re-used prefix spec
     has the same repr and the same behaviour before and after specs were derived from it,
     and a spec derived from the re-used prefix behaves like the same chain built afresh -/
@@ -333,6 +424,8 @@ structure Facts where
   invokeCopies : List (String × Bool)         -- method → `ret._cur_kwargs = dict(self._cur_kwargs)`
   iterateSkipContinues : Bool                 -- `if yld is SKIP: continue`
   iterateStopReturns : Bool                   -- `elif yld is self.sentinel or yld is STOP: return`
+  iterateOnlyNexts : Bool                     -- `iterator` is used as the iterable of the `for` loop and nowhere else;
+                                              -- `target` only in `get_handler(…)`, `iterate(target)` and the error message
   glomitReversed : Bool                       -- `for … in reversed(self._iter_stack)`
   callbacks : List (String × String)          -- builder method → iterator function its callback calls
 
@@ -344,7 +437,7 @@ def expectedCallbacks : List (String × String) :=
 def Facts.WF (f : Facts) : Bool :=
   f.iterSelfWrites.isEmpty && f.invokeSelfWrites.isEmpty && f.addOpNewList && f.addOpForwardsSentinel &&
   f.invokeCopies == [("constants", true), ("specs", true), ("star", true)] &&
-  f.iterateSkipContinues && f.iterateStopReturns && f.glomitReversed &&
+  f.iterateSkipContinues && f.iterateStopReturns && f.iterateOnlyNexts && f.glomitReversed &&
   f.callbacks == expectedCallbacks
 
 end Glom.C17
